@@ -216,6 +216,16 @@ def run_C13(ctx, E):
     stage_record_trace(ctx, E, "io", "C13_Trace", "C13_Trace.cfg", drv=drv, heap="16g", env={"GORACE": "exitcode=66 halt_on_error=1"})
 
 
+def run_C20(ctx, E):
+    stage_mc_replay(ctx, E, "stream", "UniprotStream", "UniprotStream_%s.cfg" % ctx.tier)
+    stage_expect_violation(ctx, E, "breakonly", "UniprotStream", "UniprotStream_breakonly.cfg",
+                           "Termination (design alternative 'report the error, break, close both': deadlocks an "
+                           "unbuffered error channel under the documented consumer)")
+    stage_expect_violation(ctx, E, "asbuilt", "UniprotStream", "UniprotStream_asbuilt.cfg",
+                           "Termination (code before fix KF-C20-1: same error for ever)")
+    if os.environ.get("C20_SKIP_TRACE") is None: stage_record_trace(ctx, E, "offsets", "C20_Trace", "C20_Trace.cfg", heap="8g")
+
+
 def run_C10(ctx, E):
     ctx.exhaustive = True
     for e in (("e1", "e2", "e4") if ctx.tier == "quick" else ("e1", "e2", "e3", "e4")):
@@ -233,6 +243,23 @@ _seqhash_note = ("trusted: TLC, community modules; the digest is uninterpreted i
                  "in the replayer by a from-scratch BLAKE3 transcription pinned by the official test vectors; "
                  "double-stranded inputs containing Z or (under type DNA) U are outside the strand clause and not replayed")
 PROPS = {
+    "C20": dict(run=run_C20,
+                technique="TLC model checking of the Uniprot parser loop with two channels and two consumer disciplines "
+                          "(safety + termination, three loop variants); every scenario replayed on uniprot.Parse with "
+                          "generated XML; TLC trace validation of runs truncated at every byte offset",
+                level_text="UniprotStream.tla: documents with 0..2 (quick) / 0..3 (thorough) complete entries, undamaged / "
+                           "damaged between entries / damaged inside an entry x consumer 'entries then errors' or 'both' "
+                           "x channel capacities 0..2 (0..3) x every interleaving: entries in order, exact outcome, no "
+                           "send on a closed channel, termination; the 'break only' and 'as built' loops are shown to "
+                           "violate termination.  Each scenario is replayed 4 times (truncation / inserted garbage) on "
+                           "the real parser under a 3 s deadline.  Recorded: documents of 0..2 (0..3) entries truncated at "
+                           "EVERY byte offset, gzip streams cut at random offsets through uniprot.Read, documents of up "
+                           "to 200 entries truncated / corrupted at random offsets, random disciplines and capacities "
+                           "0..100; TLC derives from the logged offsets which entries precede the damage",
+                level_note="trusted: TLC, community modules, the XML generator and its offset bookkeeping; schedules of "
+                           "the real code are sampled, exhaustive interleavings exist at model level only; a stream cut "
+                           "before its root element opens is allowed to read as empty",
+                rule="S->I: one case per scenario; I->S: one event per run"),
     "C13": dict(run=run_C13,
                 technique="TLC model checking of the streaming FASTA parser (producer / channel of capacity 0..3 / stalling "
                           "consumer) over every small file, safety + termination; every file replayed in five layouts "
